@@ -977,6 +977,12 @@ func c20Clause(p *Prog, r *Report, cons string, l *cfgLeaf, cl *envClause) {
 					if c, ok := e.(*ast.CallExpr); ok && isFunc(info, c, "os", "Getenv") {
 						return text, true
 					}
+					// strings.TrimSpace of the looked-up text: "" stays "", the representative non-empty text stays itself
+					if c, ok := e.(*ast.CallExpr); ok && isFunc(info, c, "strings", "TrimSpace") && len(c.Args) == 1 {
+						if v, verr := he.Eval(c.Args[0]); verr == nil && v != nil && v.C != nil && v.C.Kind() == constant.String {
+							return strVal(strings.TrimSpace(constant.StringVal(v.C))), true
+						}
+					}
 					return nil, false
 				}
 				for _, po := range paramObjs(cl.helper) {
@@ -1171,12 +1177,62 @@ func c20Valid(p *Prog, r *Report) {
 					return nil, false
 				}
 				visited, exit, err := f.WalkPath(env)
-				if err != nil {
-					r.Undecided("C20.c", kValid, p.pos(fi.Decl), err.Error())
-					return
-				}
 				ret := "?"
-				if rs := f.returnStmt(exit); rs != nil && len(rs.Results) == 1 {
+				if err != nil {
+					// a loop over the roots (every entry is checked): the body is interpreted as a whole with a
+					// list of that many (named) roots; what is assigned is then judged over the whole body
+					elems := []*Val{}
+					for i := int64(0); i < roots; i++ {
+						elems = append(elems, strVal("r"))
+					}
+					st.Fields["RootDirs"] = &Val{IsSlice: true, Elems: elems}
+					prev := env.Hook
+					env.Hook = func(env *Env, e ast.Expr) (*Val, bool) {
+						if v, ok := prev(env, e); ok {
+							return v, true
+						}
+						if sel, ok := ast.Unparen(e).(*ast.SelectorExpr); ok {
+							if id, isId := ast.Unparen(sel.X).(*ast.Ident); isId {
+								if _, isPkg := info.Uses[id].(*types.PkgName); isPkg {
+									if _, isVar := info.Uses[sel.Sel].(*types.Var); isVar {
+										return &Val{Tag: exprObjKey(info, sel)}, true
+									}
+								}
+							}
+						}
+						if c, ok := e.(*ast.CallExpr); ok && isFunc(info, c, "strings", "TrimSpace") && len(c.Args) == 1 {
+							if v, verr := env.Eval(c.Args[0]); verr == nil && v != nil && v.C != nil && v.C.Kind() == constant.String {
+								return strVal(strings.TrimSpace(constant.StringVal(v.C))), true
+							}
+						}
+						return nil, false
+					}
+					var rv []*Val
+					var xerr error
+					func() {
+						defer func() {
+							if rec := recover(); rec != nil {
+								if ee, ok := rec.(evalErr); ok {
+									xerr = ee
+									return
+								}
+								panic(rec)
+							}
+						}()
+						rv, _ = env.execBlock(fi.Decl.Body.List)
+					}()
+					if xerr != nil || len(rv) != 1 || rv[0] == nil {
+						r.Undecided("C20.c", kValid, p.pos(fi.Decl), fmt.Sprintf("%v; as a whole: %v", err, xerr))
+						return
+					}
+					ret = rv[0].String()
+					visited = nil
+					for _, n := range f.Nodes {
+						if n.Ast != nil {
+							visited = append(visited, n.ID)
+						}
+					}
+				} else if rs := f.returnStmt(exit); rs != nil && len(rs.Results) == 1 {
 					if isNilIdent(info, rs.Results[0]) {
 						ret = "nil"
 					} else {
